@@ -125,6 +125,7 @@ def decode(data: bytes) -> dict:
             ln["with_next"] = True      # arrives in one piece with the following line of the same session
         case["lines"].append(ln)
     case["stop_phase"] = d.p(0.3)
+    case["log_debug"] = d.p(0.12)
     return case
 
 
@@ -348,7 +349,7 @@ class C18Engine(Engine):
                 s.stop()
             await settle()
 
-        _, out, err, error = run_in_fresh_loop(main)
+        _, out, err, error = run_in_fresh_loop(main, debug_log=bool(case.get("log_debug")))
         if error and error.startswith("LIB:"):
             fail("library/undocumented-exception-escaped", error[4:])
             error = None
